@@ -43,6 +43,9 @@ func SPP(pointer uint16) Message {
 
 // SongSelect returns a song select message
 func SongSelect(song uint8) Message {
+	if song > 127 {
+		song = 127
+	}
 	// TODO check - it is a guess
 	//return NewMessage([]byte{byteSysSongSelect, song})
 	return []byte{byteSysSongSelect, song}
@@ -73,6 +76,9 @@ cdefg = Hours (0-23)
 
 // MTC returns a timing code message (quarter frame)
 func MTC(m uint8) Message {
+	if m > 127 {
+		m = 127
+	}
 	// TODO check - it is a guess
 	// TODO provide a better abstraction for MTC
 	//return NewMessage([]byte{byteMIDITimingCodeMessage, byte(m)})
